@@ -260,7 +260,8 @@ def classify(base, got):
         if changed:
             names = [c.split("#")[0] for c in changed]
             skel = all(re.search(r"(^|[._])skel", n) or n == "<preamble>" for n in names) and any("skel" in n for n in names)
-            out[g] = {"style": "skeleton" if skel else "translated", "detail": ", ".join(sorted(names))[:200], "files": sorted(files)}
+            out[g] = {"style": "skeleton" if skel else "translated", "detail": ", ".join(sorted(names))[:200], "files": sorted(files),
+                      "defs": sorted(set(names))}
     return out
 
 
@@ -346,9 +347,73 @@ def props_dependencies():
                     spaces += list(ast.literal_eval(node.value))
         except Exception:
             pass
+        try:
+            spaces += [x for x in json.load(open(os.path.join(HERE, "extra_props.json")))["extra"].get(pid, []) if x not in spaces]
+        except Exception:
+            pass
         for ns in spaces:
             ns2prop.setdefault(ns, []).append(pid)
     return gen2ns, ns2prop
+
+
+TOKEN = re.compile(r"[A-Za-z_][A-Za-z0-9_']*")
+
+
+def generated_def_graph():
+    """(name -> file, name -> set of generated def names its text mentions) over lean/Generated/*.lean"""
+    gdir = os.path.join(common.LEAN, "Generated")
+    texts, where = {}, {}
+    for f in sorted(os.listdir(gdir)):
+        if not f.endswith(".lean"):
+            continue
+        txt = open(os.path.join(gdir, f)).read()
+        parts = re.split(r"(?m)^(?=(?:/--[^\n]*-/\n)?(?:@\[[^\]]*\]\s*)?(?:private |protected )?(?:def|theorem|abbrev|instance|structure|inductive) )", txt)
+        for p in parts:
+            m = re.search(r"(?m)^(?:@\[[^\]]*\]\s*)?(?:private |protected )?(?:def|theorem|abbrev|instance|structure|inductive) ([^\s:({\[]+)", p)
+            if m:
+                name = m.group(1).split(".")[-1]
+                texts[name] = texts.get(name, "") + p
+                where.setdefault(name, f)
+    names = set(texts)
+    uses = {n: (set(TOKEN.findall(texts[n])) & names) - {n} for n in names}
+    return where, uses
+
+
+def affected_defs(changed, uses):
+    """the changed definitions and every generated definition that (transitively) mentions one of them"""
+    aff = set(c.split(".")[-1] for c in changed)
+    grew = True
+    while grew:
+        grew = False
+        for n, us in uses.items():
+            if n not in aff and us & aff:
+                aff.add(n)
+                grew = True
+    return aff
+
+
+def namespace_tokens():
+    """Props namespace -> identifiers occurring in the hand-written files (Model/Proofs/Props) of its import closure,
+    and namespace -> Generated files in its closure"""
+    props_dir = os.path.join(common.LEAN, "Props")
+    toks, gens, cache = {}, {}, {}
+    for f in sorted(os.listdir(props_dir)):
+        if not f.endswith(".lean"):
+            continue
+        ns = f[:-5]
+        ts, gs = set(), set()
+        for path in common.module_closure("Props." + ns):
+            if path.startswith("Generated/"):
+                gs.add(os.path.basename(path))
+                continue
+            if path not in cache:
+                try:
+                    cache[path] = set(TOKEN.findall(open(os.path.join(common.LEAN, path)).read()))
+                except OSError:
+                    cache[path] = set()
+            ts |= cache[path]
+        toks[ns], gens[ns] = ts, gs
+    return toks, gens
 
 
 def anchors():
@@ -409,6 +474,15 @@ def main(argv):
                 print("  %d/%d probes (%.0fs)" % (k, len(jobs), time.time() - t0), flush=True)
     gen2ns, ns2prop = props_dependencies()
     anch = anchors()
+    def_where, def_uses = generated_def_graph()
+    ns_toks, ns_gens = namespace_tokens()
+    gen_outputs = {g: sorted(b.get("files", {})) for g, b in base.items()}
+    try:
+        outs = json.load(open(os.path.join(HERE, "translate", "outputs.json")))
+        for g, fs in outs.items():
+            gen_outputs[g] = sorted(set(gen_outputs.get(g, [])) | set(fs))
+    except Exception:
+        pass
     rows = []
     for u in units:
         per_gen = {}
@@ -429,12 +503,31 @@ def main(argv):
                         e["files"].append(fn)
                 if len(e["examples"]) < 2:
                     e["examples"].append(label + ": " + info["detail"][:120])
+                for dn in info.get("defs", []):
+                    if dn not in e.setdefault("defs", []):
+                        e["defs"].append(dn)
+                if info["style"] == "pinned":
+                    e["pinned"] = True
         n = len(u.probes) - len(bad)
         for g, e in per_gen.items():
             e["points"] = n
             e["extent"] = "full" if (e["seen"] == n or (u.kind == "statement" and e["seen"] >= 1)) else "partial"
         files = sorted({fn for e in per_gen.values() for fn in e["files"]})
-        spaces = sorted({ns for fn in files for ns in gen2ns.get(fn, [])})
+        # which Props namespaces re-prove something when this unit changes: DEFINITION level — a namespace counts only if
+        # its hand-written files mention a generated definition that changes (directly or through other generated
+        # definitions); a generator that REFUSES the tree breaks every namespace importing one of its output files
+        spaces = set()
+        for g, e in per_gen.items():
+            if e.get("pinned"):
+                outs = set(gen_outputs.get(g, [])) | set(e["files"])
+                spaces |= {ns for ns, gs in ns_gens.items() if gs & outs}
+            changed = [d for d in e.get("defs", []) if d != "<preamble>"]
+            if "<preamble>" in e.get("defs", []):
+                spaces |= {ns for ns, gs in ns_gens.items() if gs & set(e["files"])}
+            if changed:
+                aff = affected_defs(changed, def_uses)
+                spaces |= {ns for ns, ts in ns_toks.items() if (ts & aff) and (ns_gens[ns] & set(e["files"]))}
+        spaces = sorted(spaces)
         props = sorted({p for ns in spaces for p in ns2prop.get(ns, [])})
         is_live = None
         if u.kind == "function":
@@ -454,7 +547,8 @@ def main(argv):
     except Exception:
         head = ""
     doc_rest = rest_extra_props(base_src, anch)
-    doc = {"what": "translator-tie coverage of src/ecdsa by harness/translate/gen_*.py, measured by mutation (see harness/tiecoverage.py)",
+    import datetime
+    doc = {"audited_at": datetime.datetime.utcnow().strftime("%Y-%m-%d %H:%M UTC"), "what": "translator-tie coverage of src/ecdsa by harness/translate/gen_*.py, measured by mutation (see harness/tiecoverage.py)",
            "repo_head": head, "src_hash": src_hash, "generator_hash": gen_hash, "generators": sorted(base),
            "generated_to_props": gen2ns, "namespace_to_properties": ns2prop,
            "rest_extra_props": doc_rest,
@@ -524,7 +618,14 @@ def summarize(rows):
 
 def render_md(doc):
     out = ["# Translator-tie coverage of `src/ecdsa` (generated by `harness/tiecoverage.py`; do not edit)", "",
-           "repo HEAD `%s`; generators: %s." % (doc["repo_head"], ", ".join("`%s`" % g for g in doc["generators"])), "",
+           "Audited: repo HEAD `%s`, %s. Generators (sha1/16 of the generator file): %s. Source hashes: %s. "
+           "`common.tie_coverage_for` marks the block it copies into an evidence file `stale` when a source or generator "
+           "hash differs from these." % (doc["repo_head"], doc.get("audited_at", ""),
+                                       ", ".join("`%s` %s" % (g, doc["generator_hash"].get(g, "?")) for g in doc["generators"]),
+                                       ", ".join("`%s` %s" % (m, h) for m, h in doc["src_hash"].items())), "",
+           "Props namespaces / properties are attributed at DEFINITION level: a namespace is listed for a unit only if its "
+           "hand-written Lean files mention a generated definition that changes with the unit (directly or through other "
+           "generated definitions), or if a generator it depends on refuses the mutated tree.", "",
            "Method: for every function a harmless statement is inserted at each position of its body (n+1 probes), every "
            "module-/class-level statement is rewritten into an equivalent one; every generator is run on each mutated tree. "
            "`translated` = Lean definitions change; `skeleton` = only a pinned `skel_*` changes; `pinned` = the generator "
@@ -550,7 +651,7 @@ def render_md(doc):
                 ", ".join(r["props_namespaces"]), ", ".join(r["properties"])))
         out.append("")
     if doc.get("rest_extra_props"):
-        out += ["## EXTRA_PROPS for the per-module ties of gen_rest.py (`Props/Ct*.lean`)", "",
+        out += ["## EXTRA_PROPS for the per-module ties of gen_rest.py (`Props/Ct*.lean`; wired in harness/extra_props.json)", "",
                 "| property | recommended (anchored modules, + `_compat` if imported) | transitive import closure |", "|---|---|---|"]
         for p, d in doc["rest_extra_props"].items():
             out.append("| %s | %s | %s |" % (p, ", ".join(d["recommended"]), ", ".join(d["transitive"])))
